@@ -64,3 +64,15 @@ claim(
     "Seeded random exploration of (program, input, configuration) triples from a generator covering every statement form in the quantifier (67 feature flags incl. non-indexable and one-shot iterables, starred/nested targets, side-effecting sub-expressions, generators driven by next/send/throw/close/drop scripts, closures with nonlocal writes) under tooled / tooled.inplace / 1-3 non-overriding probes over variable subsets (all subsets for <=5 names in the thorough tier) / raw overlays / after deactivation. Held-on-observed.",
     "Plain and twin renderings are cross-checked for equal outcomes by the generator's self-test; exception messages and function reprs are normalised; bare annotations and globals rebound during the call are excluded (documented exceptions).",
 )
+claim(
+    "C02",
+    "trace monitor: probe streams (merged per-variable stream and simultaneously active context probes) vs the reference binding trace of an independently rendered hooked twin of the same program",
+    "Seeded random exploration over the C01 program space: for every program and input the twin's trace gives the exact expected stream of every variable and of random f(C...) > v selectors (context sizes 0-3, .values()/raw/raw-overlay delivery, several probes active at once); values are repr-ed inside the subscriber at delivery time so aliasing of live captures is visible. Held-on-observed.",
+    "Twin hook placement encodes my reading of the statement's binding forms; parameter-entry order and mutable-object context reprs are not asserted.",
+)
+claim(
+    "C06",
+    "trace monitor with three oracles: bracket automaton over the observed meta/variable stream, sys.monitoring ground truth (PY_START/RETURN/YIELD/RESUME/THROW/UNWIND on the original code object), and the hooked twin for loop iterations",
+    "Seeded random exploration of control-flow-heavy functions and generators (nested loops x try/finally x early exits, driven by next/send/throw/close/drop scripts); entry/exit bracketing, exactly one value-or-error per ended activation with the value/exception reported by the interpreter itself, one yield per PY_YIELD, one receive per next/send resumption, properly nested loop begin/end on every exit, and wrapper-probe begin/end pairs. Held-on-observed apart from one listed known finding.",
+    "Programs whose `return` is followed by a finally clause are routed to the known-finding stream (value-event-superseded-by-finally); order of #value relative to events produced by later finally clauses is not asserted.",
+)
